@@ -235,4 +235,11 @@ theorem mem_gather {α} (l : List α) (ixs : List Nat) (x : α) (h : x ∈ gathe
   obtain ⟨i, _, hi⟩ := h
   exact List.mem_of_getElem? hi
 
+theorem pyIndex_map {α β} (f : α → β) (l : List α) (ix : Idx) : pyIndex (l.map f) ix = (pyIndex l ix).map (·.map f) := by
+  unfold pyIndex
+  rw [List.length_map]
+  cases ix.toList l.length with
+  | none => rfl
+  | some ixs => simp [gather_map]
+
 end PyIdx
